@@ -40,6 +40,7 @@ func checkC06(c *Ctx) {
 	c.Rule("C06.R2", "a position is built as [p.X, p.Y] and read back as X=e[0], Y=e[1] under a len(e)==2 guard")
 	c.Rule("C06.R3", "every conversion loop (encoder and decoder) is a full-range identity index map into a fresh slice of the source's length")
 	c.Rule("C06.R4", "Encode returns json.Marshal's error (non-finite coordinates) and an error for unsupported types")
+	c.Rule("C06.R5", "trust base of the exact round trip: number formatting and parsing are encoding/json's own (shortest representation that round-trips, errors for NaN/Inf) — no type of the package customises its JSON or text form")
 	p := c.P.Pkg("encoding/geojson")
 	if p == nil {
 		c.Unk("C06.R1", "encoding/geojson", token.NoPos, "package not loaded")
@@ -51,6 +52,8 @@ func checkC06(c *Ctx) {
 	c06tags(c)
 	c06loops(c, p)
 	c06errors(c, info)
+	c06delegation(c, p)
+	c.Floor("C06.R5", 1)
 	c.Floor("C06.R1", 13)
 	c.Floor("C06.R2", 3)
 	c.Floor("C06.R3", 8)
@@ -640,5 +643,41 @@ func c06errors(c *Ctx, info *types.Info) {
 		c.OK("C06.R4", "encoding/geojson.ToGeoJSON#default", tfd.Pos(), "unsupported types return (nil, error)")
 	} else {
 		c.Bad("C06.R4", "encoding/geojson.ToGeoJSON#default", token.NoPos, "unsupported geometry types are not reported as an error")
+	}
+}
+
+// c06delegation: no named type of the package overrides encoding/json's treatment.
+func c06delegation(c *Ctx, p *pkgT) {
+	hooks := map[string]bool{"MarshalJSON": true, "UnmarshalJSON": true, "MarshalText": true, "UnmarshalText": true}
+	n := 0
+	sc := p.Types.Scope()
+	for _, nm := range sc.Names() {
+		tn, ok := sc.Lookup(nm).(*types.TypeName)
+		if !ok {
+			continue
+		}
+		nt, ok := tn.Type().(*types.Named)
+		if !ok {
+			continue
+		}
+		n++
+		cons := "encoding/geojson." + nm + "#json-hooks"
+		var found []string
+		for _, t := range []types.Type{nt, types.NewPointer(nt)} {
+			ms := types.NewMethodSet(t)
+			for i := 0; i < ms.Len(); i++ {
+				if hooks[ms.At(i).Obj().Name()] {
+					found = append(found, ms.At(i).Obj().Name())
+				}
+			}
+		}
+		if len(found) == 0 {
+			c.OK("C06.R5", cons, tn.Pos(), "encoded and decoded by encoding/json's reflection")
+		} else {
+			c.Unk("C06.R5", cons, tn.Pos(), "type %s defines %s: coordinates are no longer formatted/parsed by encoding/json, whose shortest-round-trip float formatting (including -0, exponents, 17 significant digits) and NaN/Inf errors the exact round trip rests on; a hand-written number formatter is outside what these rules can establish", nm, found[0])
+		}
+	}
+	if n == 0 {
+		c.Unk("C06.R5", "encoding/geojson#types", token.NoPos, "no named types found")
 	}
 }
